@@ -100,6 +100,7 @@ def gen_cfg(rng, faults, thorough=False):
         "runner": runner, "blocking": runner == "blocking",
         "cancel_at": rng.choice([None, None, 1, 2, 3, 5]) if runner != "blocking" else None,
         "pcancellable": rng.choice([0.0, 0.5, 1.0]),
+        "plate": rng.choice([0.0, 0.0, 0.3, 0.6]) if runner == "blocking" else 0.0,
         "seed": rng.randrange(1 << 30),
     }
     if faults:
@@ -219,7 +220,8 @@ def oracle_c05(res):
     # exit
     if not any(c[0] == "remove" for c in rec.flat):
         return ("exit_clean", "remove_unfinished never called")
-    cancelled = {c[1] for c in rec.flat if c[0] == "cancel"}
+    # (blocking runs record whether a cancel() succeeded: a future that is done already cannot be cancelled any more)
+    cancelled = {c[1] for c in rec.flat if c[0] == ("cancel_ok" if cfg["blocking"] else "cancel")}
     consumed = set()
     for c in rec.flat:
         if c[0] in ("done", "remaining"):
